@@ -196,5 +196,13 @@ func copyFromZipArchive(archiveFile *zip.File, dstPath string) error {
 		return err
 	}
 
+	// The size limit was reached: only succeed if the archived file ends
+	// here, never leave a silently truncated file behind.
+	if _, err := io.ReadFull(fileReader, make([]byte, 1)); err == nil {
+		return fmt.Errorf("file in archive exceeds the maximum unpack size of %d bytes", MaxUnpackSize)
+	} else if !errors.Is(err, io.EOF) {
+		return err
+	}
+
 	return nil
 }
